@@ -52,8 +52,8 @@ impl Prop for C11 {
     }
     fn cases(&self, cfg: &RunCfg) -> usize {
         match cfg.tier {
-            Tier::Quick => 14,
-            Tier::Thorough => 700,
+            Tier::Quick => 60,
+            Tier::Thorough => 3000,
         }
     }
     fn run_case(&self, _cfg: &RunCfg, _idx: usize, rng: &mut Rng, out: &mut Out) {
